@@ -48,16 +48,22 @@ thread_local! {
 }
 
 fn register_receiver(rx: Receiver<CollectCommand>) {
+    #[cfg(fastrace_verif)]
+    crate::verif::point(crate::verif::Point::RegisterReceiver);
     SPSC_RXS.lock().push(rx);
 }
 
 fn send_command(cmd: CollectCommand) {
+    #[cfg(fastrace_verif)]
+    verif_log_command(&cmd, false);
     COMMAND_SENDER
         .try_with(|sender| unsafe { (*sender.get()).send(cmd).ok() })
         .ok();
 }
 
 fn force_send_command(cmd: CollectCommand) {
+    #[cfg(fastrace_verif)]
+    verif_log_command(&cmd, true);
     COMMAND_SENDER
         .try_with(|sender| unsafe { (*sender.get()).force_send(cmd) })
         .ok();
@@ -264,9 +270,30 @@ impl GlobalCollector {
         let stale_spans = &mut self.stale_spans;
 
         {
+            #[cfg(fastrace_verif)]
+            let mut verif_index = 0usize;
+            #[cfg(fastrace_verif)]
+            let _verif_drain = VerifDrainScope::begin();
             SPSC_RXS.lock().retain_mut(|rx| {
+                #[cfg(fastrace_verif)]
+                {
+                    crate::verif::point(crate::verif::Point::DrainReceiver { index: verif_index });
+                    verif_index += 1;
+                }
                 loop {
                     match rx.try_recv() {
+                        #[cfg(fastrace_verif)]
+                        Ok(Some(ref cmd)) if verif_log_drained(cmd) => unreachable!(),
+                        #[cfg(fastrace_verif)]
+                        Err(_) if {
+                            crate::verif::point(crate::verif::Point::ReceiverClosed {
+                                index: verif_index - 1,
+                            });
+                            false
+                        } =>
+                        {
+                            unreachable!()
+                        }
                         Ok(Some(CollectCommand::StartCollect(cmd))) => start_collects.push(cmd),
                         Ok(Some(CollectCommand::DropCollect(cmd))) => drop_collects.push(cmd),
                         Ok(Some(CollectCommand::CommitCollect(cmd))) => commit_collects.push(cmd),
@@ -287,6 +314,8 @@ impl GlobalCollector {
         // If the reporter is not set, global collectior only clears the channel and then dismiss
         // all messages.
         if self.reporter.is_none() {
+            #[cfg(fastrace_verif)]
+            crate::verif::point(crate::verif::Point::CycleEnd { records: None });
             start_collects.clear();
             drop_collects.clear();
             commit_collects.clear();
@@ -384,6 +413,10 @@ impl GlobalCollector {
             );
         }
 
+        #[cfg(fastrace_verif)]
+        crate::verif::point(crate::verif::Point::CycleEnd {
+            records: Some(committed_records.len()),
+        });
         self.reporter.as_mut().unwrap().report(committed_records);
     }
 }
@@ -632,4 +665,103 @@ fn mount_danglings(records: &mut [SpanRecord], danglings: &mut HashMap<SpanId, V
             }
         }
     }
+}
+
+#[cfg(fastrace_verif)]
+fn verif_command_info(cmd: &CollectCommand) -> (crate::verif::CommandKind, Vec<usize>) {
+    use crate::verif::CommandKind;
+    match cmd {
+        CollectCommand::StartCollect(c) => (CommandKind::Start, vec![c.collect_id]),
+        CollectCommand::DropCollect(c) => (CommandKind::Drop, vec![c.collect_id]),
+        CollectCommand::CommitCollect(c) => (CommandKind::Commit, vec![c.collect_id]),
+        CollectCommand::SubmitSpans(c) => (
+            CommandKind::Submit,
+            c.collect_token.iter().map(|item| item.collect_id).collect(),
+        ),
+    }
+}
+
+#[cfg(fastrace_verif)]
+fn verif_log_command(cmd: &CollectCommand, force: bool) {
+    if crate::verif::enabled() {
+        let (kind, collect_ids) = verif_command_info(cmd);
+        crate::verif::point(crate::verif::Point::SendCommand {
+            kind,
+            collect_ids,
+            force,
+        });
+    }
+}
+
+// Always returns false: used as a match guard that only logs.
+#[cfg(fastrace_verif)]
+fn verif_log_drained(cmd: &CollectCommand) -> bool {
+    if crate::verif::enabled() {
+        let (kind, collect_ids) = verif_command_info(cmd);
+        crate::verif::point(crate::verif::Point::Drained { kind, collect_ids });
+    }
+    false
+}
+
+// Brackets the time during which a collector cycle holds the receiver registry.
+#[cfg(fastrace_verif)]
+struct VerifDrainScope;
+
+#[cfg(fastrace_verif)]
+impl VerifDrainScope {
+    fn begin() -> Self {
+        crate::verif::point(crate::verif::Point::DrainBegin);
+        VerifDrainScope
+    }
+}
+
+#[cfg(fastrace_verif)]
+impl Drop for VerifDrainScope {
+    fn drop(&mut self) {
+        crate::verif::point(crate::verif::Point::DrainEnd);
+    }
+}
+
+#[cfg(fastrace_verif)]
+pub(crate) fn verif_run_collector_cycle() -> bool {
+    crate::verif::point(crate::verif::Point::CycleLock);
+    match GLOBAL_COLLECTOR.lock().as_mut() {
+        Some(global_collector) => {
+            global_collector.handle_commands();
+            true
+        }
+        None => false,
+    }
+}
+
+#[cfg(fastrace_verif)]
+pub(crate) fn verif_collector_stats() -> crate::verif::CollectorStats {
+    let mut stats = crate::verif::CollectorStats::default();
+    if let Some(global_collector) = GLOBAL_COLLECTOR.lock().as_ref() {
+        stats.active_collectors = global_collector.active_collectors.len();
+        for active_collector in global_collector.active_collectors.values() {
+            stats.buffered_span_sets += active_collector.span_collections.len();
+            stats.danglings += active_collector
+                .danglings
+                .values()
+                .map(|items| items.len())
+                .sum::<usize>();
+        }
+    }
+    stats.registered_receivers = SPSC_RXS.lock().len();
+    stats
+}
+
+#[cfg(fastrace_verif)]
+pub(crate) fn verif_ring_free_slots() -> Option<usize> {
+    COMMAND_SENDER
+        .try_with(|sender| unsafe { (*sender.get()).verif_free_slots() })
+        .ok()
+}
+
+#[cfg(fastrace_verif)]
+pub(crate) fn verif_parked_commands() -> Option<usize> {
+    COMMAND_SENDER
+        .try_with(|sender| unsafe { (*sender.get()).verif_parked() })
+        .ok()
 }
